@@ -31,6 +31,7 @@ class B:
         self.inside_result = None
         self.unwound = []     # frames in the order an exception left them (innermost first)
         self.sent = []
+        self.tracked = {}     # id(frame) -> (frame, [managers it has open, outermost first])
         self.decoys = []      # objects that are only passed around as messages (never part of the chain)
 
     def reg(self, obj):
@@ -317,6 +318,64 @@ class PlainCM:
         return False
 
 
+class TrackedCM:
+    """a manager that records, per frame, which managers that frame currently has open (in order)"""
+
+    def __init__(self, b):
+        self.b = b
+        self.fr = None
+
+    def _enter(self, fr):
+        self.fr = fr
+        self.b.tracked.setdefault(id(fr), (fr, []))[1].append(self)
+
+    def _exit(self):
+        lst = self.b.tracked[id(self.fr)][1]
+        assert lst and lst[-1] is self
+        lst.pop()
+
+    def __enter__(self):
+        self._enter(sys._getframe(1))
+        return self
+
+    def __exit__(self, *a):
+        self._exit()
+        return False
+
+    async def __aenter__(self):
+        self._enter(sys._getframe(1))
+        return self
+
+    async def __aexit__(self, *a):
+        self._exit()
+        return False
+
+
+async def agen_with_frame(b, i, ml):
+    """an async generator that holds managers open while it waits for the rest of the chain"""
+    try:
+        with TrackedCM(b) as outer, TrackedCM(b):  # noqa: F841
+            async with TrackedCM(b):
+                if ml:
+                    await (
+                        nxt(b, i)
+                    )
+                else:
+                    await nxt(b, i)
+                yield 1
+    finally:
+        b.unwound.append(sys._getframe())
+
+
+def gen_with_frame(b, i, ml):
+    try:
+        with TrackedCM(b) as outer, TrackedCM(b):  # noqa: F841
+            yield from to_iter(nxt(b, i))
+    finally:
+        b.unwound.append(sys._getframe())
+    return "gen-with-done"
+
+
 async def coro_aexit_frame(b, i, ml):
     try:
         async with ExitAwaiter(b, i) as mgr:  # noqa: F841
@@ -331,8 +390,8 @@ async def coro_aexit_frame(b, i, ml):
 
 async def coro_withbody_frame(b, i, ml):
     try:
-        with PlainCM() as outer, PlainCM():  # noqa: F841
-            async with PlainCM():
+        with TrackedCM(b) as outer, TrackedCM(b):  # noqa: F841
+            async with TrackedCM(b):
                 if ml:
                     await (
                         nxt(b, i)
@@ -417,6 +476,15 @@ def nxt(b, i):
         return b.reg(coro_aexit_frame(b, j, ml))
     if kind == "in_with_body":
         return b.reg(coro_withbody_frame(b, j, ml))
+    if kind in ("agen_with_asend", "agen_with_async_for", "agen_with_anext"):
+        ag = b.reg(agen_with_frame(b, j, ml))
+        if kind == "agen_with_asend":
+            return ag.asend(None)
+        if kind == "agen_with_anext":
+            return ag.__anext__()
+        return b.reg(coro_async_for(b, j, ag))
+    if kind == "gen_with_yield_from":
+        return AwaitVia(lambda: b.reg(gen_with_frame(b, j, ml)))
     if kind == "await_obj_wrapper":
         co = b.reg(coro_frame(b, j, ml))
         return AwaitVia(co.__await__)
@@ -576,6 +644,26 @@ def run_c03(req):
         if leaf is not want_leaf or leaf2 is not want_leaf:
             obs.append({"kind": "leaf", "j": j, "got": repr(leaf), "exp": repr(want_leaf)})
         stats["depth"] = len(exp)
+    # x created but never started: an exception thrown into it unwinds through exactly its own frame (def line)
+    b, x = build(ir)
+    try:
+        with warnings.catch_warnings(record=True) as w:
+            warnings.simplefilter("always")
+            st = extract(x)
+        got = [(f.pyframe, f.lineno) for f in st.frames]
+        own = getattr(x, "gi_frame", None) or getattr(x, "cr_frame", None) or getattr(x, "ag_frame", None)
+        if ([f for f, _ln in got] != [own] or got[0][1] != own.f_code.co_firstlineno or st.leaf is not None
+                or st.error is not None or st.root is not x or w):
+            obs.append({"kind": "unstarted", "got": fdesc(got), "leaf": repr(st.leaf), "error": repr(st.error),
+                        "warnings": [str(i.message)[:100] for i in w]})
+        stats["unstarted"] = 1
+        del st
+    except BaseException as ex:
+        obs.append({"kind": "raised", "j": 0, "exc": repr(ex)})
+    try:
+        x.close() if hasattr(x, "close") else None
+    except BaseException:
+        pass
     # exhausted x: no frames, no leaf
     b, x = build(ir)
     d = Drv(x, ir["outer"])
@@ -708,8 +796,56 @@ def run_c16(req):
     return {"obs": obs, "stats": stats}
 
 
+def run_ctx(req):
+    """The managers held open by the frames of a chain, seen through the whole chain (C20 in referents mode, C01 in
+    trickery mode): for every frame, contexts = exactly the managers that frame has open, in order."""
+    from stackscope.lowlevel import set_trickery_enabled
+    ir = req["ir"]
+    obs = []
+    stats = {"frames_with_managers": 0, "agen_frames_with_managers_reached_through_another_frame": 0}
+    try:
+        b, x, d, v = drive_to(ir, 1)
+    except BaseException as ex:
+        return {"harness_error": "chain did not reach its first suspension: %r (ir=%r)" % (ex, ir)}
+    for mode in ("trick", "ref"):
+        set_trickery_enabled(mode == "trick")
+        try:
+            with warnings.catch_warnings(record=True) as w:
+                warnings.simplefilter("always")
+                try:
+                    st = extract(x)
+                except BaseException as ex:
+                    obs.append({"kind": mode + ".raised", "exc": repr(ex)})
+                    continue
+        finally:
+            set_trickery_enabled(None)
+        for ww in w:
+            obs.append({"kind": mode + ".warning", "msg": str(ww.message)[:200]})
+        if st.error is not None:
+            obs.append({"kind": mode + ".error", "exc": repr(st.error)})
+        for pos, f in enumerate(st.frames):
+            want = list(b.tracked.get(id(f.pyframe), (None, []))[1])
+            got = [c.obj for c in f.contexts]
+            if want and mode == "ref":
+                stats["frames_with_managers"] += 1
+                if pos > 0 and f.funcname == "agen_with_frame":
+                    stats["agen_frames_with_managers_reached_through_another_frame"] += 1
+            if len(got) != len(want) or any(a is not c for a, c in zip(got, want)) or any(c.is_exiting for c in f.contexts):
+                obs.append({"kind": mode + ".chain_frame_contexts", "frame": f.funcname, "position": pos,
+                            "got": [type(o).__name__ for o in got], "want": len(want)})
+                break
+        del st
+    try:
+        d.aw.throw(Probe())
+    except BaseException:
+        pass
+    return {"obs": obs[:6], "stats": stats}
+
+
 def handle(req):
     op = req["op"]
+    if op == "chains.ctx":
+        return run_ctx(req)
     if op == "chains.c03":
         return run_c03(req)
     if op == "chains.c16":
